@@ -86,7 +86,7 @@ def genericTys (hasU hasN hasLt : Bool) : List Ty :=
    .path true [.mk "std" [], .mk "vec" [], .mk "Vec" [.ty tyT]],
    .path false [.mk "std" [], .mk "vec" [], .mk "Vec" [.ty tyT]],
    Ty.app "Wrap" [Ty.app "Wrap" [tyT]], Ty.app "Box" [.dynT false [.mk "Tr2" [.ty tyT]]],
-   .dynT false [.mk "Tr2" [.ty tyT]] [["Send"]], Ty.app "Box" [.dynT false [.mk "Tr2" [.ty tyT]] [["Send"], ["'static"]]],
+   .dynT false [.mk "Tr2" [.ty tyT]] [["Send"]], .dynT false [.mk "Tr2" [.ty tyT]], Ty.app "Box" [.dynT false [.mk "Tr2" [.ty tyT]] [["Send"], ["'static"]]],
    .path false [.mk "Other" [.assoc "Assoc" tyT]],
    -- parenthesized path arguments
    Ty.app "Box" [.dynT false [.fn "Fn" [tyT] none]], Ty.app "Box" [.dynT false [.fn "FnMut" [Ty.simple "u8"] (some tyT)] [["Send"]]],
@@ -148,7 +148,9 @@ def byExpr (w : CmpAttr) : Toks := ["by_" ++ w.name]
 
 def keyPool (w : CmpAttr) : List Toks :=
   [keyExpr w, ["$", ".", "len", "(", ")"], ["(", "$", ".", "0", ",", "$", ".", "1", ")"],
-   ["$"], ["[", "$", ".", "a", ",", "$", ".", "b", "]"], ["{", "let", "x", "=", "&", "$", ";", "x", ".", "k", "(", ")", "}"]]
+   ["$"], ["[", "$", ".", "a", ",", "$", ".", "b", "]"], ["{", "let", "x", "=", "&", "$", ";", "x", ".", "k", "(", ")", "}"],
+   -- names close to the one the expander substitutes internally for `$` (`__placeholder`): they are the user's
+   ["_placeholder", "(", "&", "$", ",", "placeholder", ")"]]
 def byPool (w : CmpAttr) : List Toks :=
   [byExpr w, ["|", "a", ",", "b", "|", "a", ".", "x", "==", "b", ".", "x"], ["f64", "::", "total_cmp"],
    ["m", "::", "by_" ++ w.name, "::", "<", "u8", ">"]]
